@@ -139,6 +139,10 @@ func (hc *TopNCollector) Collect(ctx context.Context, aggs search.Aggregations,
 
 	// add fields needed by aggregations
 	hc.neededFields = append(hc.neededFields, aggs.Fields()...)
+	// a field named more than once (by the sort order and by aggregations, or by
+	// several aggregations) must be loaded once: the document value reader
+	// visits a field once per occurrence in this list
+	hc.neededFields = uniqueFields(hc.neededFields)
 	bucket := search.NewBucket("", aggs)
 
 	var hitNumber int
@@ -261,4 +265,17 @@ func (hc *TopNCollector) finalizeResults() error {
 	}
 
 	return err
+}
+
+// uniqueFields returns the field names without repetitions, in first-seen order.
+func uniqueFields(fields []string) []string {
+	seen := make(map[string]struct{}, len(fields))
+	rv := fields[:0:0]
+	for _, f := range fields {
+		if _, ok := seen[f]; !ok {
+			seen[f] = struct{}{}
+			rv = append(rv, f)
+		}
+	}
+	return rv
 }
